@@ -113,6 +113,10 @@ def oracle(rows):
         from vlib.core import crash_signature
         return out.bad(crash_signature(exc, "shared-validator-raises") or "shared-validator-raises", repr(exc))
     allowed = gen_events.possible_outcomes(rows)
+    if allowed is None:
+        out.classes += ("undecided:model-too-wide",)
+        out.nontrivial = False
+        return out
     if again not in allowed and got in allowed:
         out.bad("reused-validator-judges-differently", f"fresh {got} reused {again} allowed {sorted(allowed)[:3]}\n"
                                                        f"{gen_events.to_tsv(rows)}")
